@@ -240,6 +240,8 @@ def remove_integer(string):
 def read_number(string):
     number = 0
     llen = 0
+    if not string:
+        raise UnexpectedDER("Empty string does not encode a number")
     if str_idx_as_int(string, 0) == 0x80:
         raise UnexpectedDER("Non minimal encoding of OID subidentifier")
     # base-128 big endian, with most significant bit set in all but the last
